@@ -1,9 +1,24 @@
 ----------------------------- MODULE MC_History -----------------------------
-(* MC + S2C for C20: all job sequences up to MaxLen over a job menu; with the protections on, every observed result equals the fresh one;
-   each protection switched off is a regression instance that must violate ObsDeterminism. *)
+(* MC for C20: all job sequences up to MaxLen over a job menu; with the protections on, every observed result equals the fresh one and
+   no cached object is written to; each protection switched off is a regression instance that must violate one of the two.            *)
 EXTENDS History, TLC, Json
 CONSTANTS MaxLen
-Menu == { [hw |-> "ce", vendor |-> "huawei", mutates |-> FALSE], [hw |-> "ne", vendor |-> "huawei", mutates |-> FALSE],
-          [hw |-> "cat", vendor |-> "cisco", mutates |-> TRUE], [hw |-> "cat2", vendor |-> "cisco", mutates |-> FALSE] }
+K(rb, re, acl, ord) == [rb |-> rb, re |-> re, acl |-> acl, ord |-> ord]
+None == <<"-", "-">>
+Menu == {
+  \* two hardware models of one vendor over the same configuration (their rulebooks are rendered per hardware)
+  [id |-> "ce",  key |-> K(<<"ce", "huawei">>, <<"huawei rows", "huawei rows">>, None, <<"huawei.order", "huawei.order">>), reads |-> {"rb", "ord"}, writes |-> {}],
+  [id |-> "ne",  key |-> K(<<"ne", "huawei">>, <<"huawei rows", "huawei rows">>, None, <<"huawei.order", "huawei.order">>), reads |-> {"rb", "ord"}, writes |-> {}],
+  \* a rule whose logic writes to its rule argument
+  [id |-> "cat", key |-> K(<<"cat", "cisco">>, None, None, None), reads |-> {"rb"}, writes |-> {"rb"}],
+  [id |-> "cat2", key |-> K(<<"cat", "cisco">>, None, None, None), reads |-> {"rb"}, writes |-> {}],
+  \* one row text compiled case-insensitively by a rulebook and case-sensitively by an ACL
+  [id |-> "icase-rule", key |-> K(<<"ce", "huawei">>, <<"row/i", "row">>, None, None), reads |-> {"rb", "re"}, writes |-> {}],
+  [id |-> "icase-acl",  key |-> K(<<"ce", "huawei">>, <<"row/plain", "row">>, <<"aclB", "aclB">>, None), reads |-> {"re", "acl"}, writes |-> {}],
+  \* one compiled ACL shared by jobs: a row matched by two rules merges their children, a row matched by one of them reads them
+  [id |-> "acl-both",  key |-> K(<<"ce", "huawei">>, None, <<"aclA", "aclA">>, None), reads |-> {"acl"}, writes |-> {"acl"}],
+  [id |-> "acl-first", key |-> K(<<"ce", "huawei">>, None, <<"aclA", "aclA">>, None), reads |-> {"acl"}, writes |-> {}],
+  \* an Orderer that extends its ordering (overlapping rules with children, reference tracking), then a job ordered by the same rulebook
+  [id |-> "reftrack", key |-> K(<<"ce", "huawei">>, None, None, <<"huawei.order", "huawei.order">>), reads |-> {"ord"}, writes |-> {"ord"}] }
 Bound == Len(hist) <= MaxLen
 =============================================================================
